@@ -64,6 +64,8 @@ def raw_cost(spec, x):
             return float('inf')
         return float(np.sum(w * (x - a) ** 2))
     if fam == 'vec':          # array-valued, for reducers
+        if spec.get('single'):    # one signed residual (a fit to a single data point)
+            return [float(np.sum(w * (x - a))) + float(spec.get('c', 0.25))]
         return [float(v) for v in (w * (x - a) ** 2)] + [float(spec.get('c', 0.25))]
     raise ValueError(fam)
 
@@ -142,6 +144,8 @@ def cost_specs(draw, dim, families=('quad', 'rosen', 'abs', 'cos', 'plateau', 'i
     if fam == 'vec':
         spec['c'] = draw(st.sampled_from([0.0, 0.25, 1.0]))
         spec['ret'] = 'array'
+        if draw(st.integers(0, 3)) == 0:
+            spec['single'] = True
     return spec
 
 
@@ -154,6 +158,10 @@ def reducer_fn(spec):
         return (lambda a: float(np.max(a))), True
     if kind == 'mean':
         return (lambda a: float(np.mean(a))), True
+    if kind == 'sumsq':     # chi-square: not the identity on a single value
+        return (lambda a: float(np.sum(np.asarray(a, dtype=float) ** 2))), True
+    if kind == 'maxabs':
+        return (lambda a: float(np.max(np.abs(np.asarray(a, dtype=float))))), True
     if kind == 'add2':      # python-reduce style
         return (lambda x, y: x + y), False
     if kind == 'max2':
@@ -177,6 +185,10 @@ def reduce_value(spec, v):
         return float(max(v))
     if k == 'mean':
         return float(np.mean(np.array(v, float)))
+    if k == 'sumsq':
+        return float(np.sum(np.asarray(v, dtype=float) ** 2))
+    if k == 'maxabs':
+        return float(np.max(np.abs(np.asarray(v, dtype=float))))
     raise ValueError(k)
 
 
